@@ -42,3 +42,5 @@ SPEC = dict(
                  "a peer close frame, EOF, an invalid frame and a read fault are all 'the pending read fails'; "
                  "a write fault, EOF and the close echo after a peer close frame are all 'a write fails'"],
 )
+
+SPEC["manifest"]["text"] += ' A quarter of the scenarios use a reader that handles the error report under the lock its writers hold while writing; a third of the injected write faults are of the timeout kind (net.Error, Timeout() true).'
